@@ -1201,4 +1201,5 @@ func run(cx *lib.Ctx) {
 			ill(ti, "json", renderJSON(r.Fork(), randomJNode(r, 3)), r.Intn(3), "json-random-document")
 		}
 	}
+	corrGohcl(cx)
 }
